@@ -575,3 +575,49 @@ func Harness_C02_directory_comes_back() {
 	step("create_below", cerr, ref.createMode("/a/b/f", false, true, 0o666))
 	vm.Assert("C02.comeback_locks_free", v.Env.LocksFree())
 }
+
+// Harness_C02_content_write_keeps_attributes: a content write through a handle changes the content and the size and
+// nothing else. Mode and owner set before the handle is opened, or while it is open, are what the entry has after Close.
+func Harness_C02_content_write_keeps_attributes() {
+	v := verifNewFS(config.PipeConfig{}, false, true)
+	v.rootOnly()
+	v.Env.AddEntry("/f", tar.TypeReg, 2, false, "")
+	copy(v.Env.Tape.LastMember().Data, []byte("pq"))
+	which := vm.Choice("attribute", 3)
+	set := func() {
+		if which != 1 {
+			vm.Assert("C02.attr_chmod_ok", v.FS.Chmod("/f", 0o600) == nil)
+		}
+		if which != 0 {
+			vm.Assert("C02.attr_chown_ok", v.FS.Chown("/f", 7, 8) == nil)
+		}
+	}
+	whileOpen := vm.Bool("whileTheHandleIsOpen")
+	if !whileOpen {
+		set()
+	}
+	h, err := v.FS.OpenFile("/f", os.O_RDWR, 0)
+	vm.Assert("C02.attr_open_ok", err == nil)
+	if err != nil {
+		return
+	}
+	_, werr := h.Write([]byte("X"))
+	vm.Assert("C02.attr_write_ok", werr == nil)
+	if whileOpen {
+		set()
+	}
+	vm.Assert("C02.attr_close_ok", h.Close() == nil)
+	for _, r := range v.Env.P.VerifRows() {
+		if r.Deleted == 1 || strings.TrimPrefix(r.Name, "/") != "f" {
+			continue
+		}
+		vm.Assert("C02.content_write_changes_the_size_only", r.Size == 2)
+		if which != 1 {
+			vm.Assert("C02.content_write_keeps_the_mode", r.Mode&0o777 == 0o600)
+		}
+		if which != 0 {
+			vm.Assert("C02.content_write_keeps_the_owner", r.UID == 7 && r.Gid == 8)
+		}
+	}
+	vm.Assert("C02.attr_locks_free", v.Env.LocksFree())
+}
